@@ -1171,11 +1171,12 @@ func (self *ArbiterVoter) DoProposal() error {
 		self.proposalIndex = self.proposalId
 	}
 	self.proposalIndex++
+	proposalIndex := self.proposalIndex
 	self.glock.Unlock()
 
 	isReject := false
 	responses := self.DoRequests("do proposal", func(member *ArbiterMember) (interface{}, error) {
-		response, err := member.DoProposal(self.proposalIndex, self.voteHost, self.voteAofId)
+		response, err := member.DoProposal(proposalIndex, self.voteHost, self.voteAofId)
 		if err == ProposalRejectError {
 			isReject = true
 		}
@@ -1190,7 +1191,10 @@ func (self *ArbiterVoter) DoProposal() error {
 		return errors.New("member accept proposal count too small")
 	}
 	self.glock.Lock()
-	self.proposalId = self.proposalIndex
+	if self.proposalId < proposalIndex && self.proposalHost == "" {
+		self.proposalId = proposalIndex
+	}
+	self.proposalIndex = proposalIndex
 	self.glock.Unlock()
 	self.manager.slock.Log().Infof("Arbier voter do proposal succed, host %s aofId %s proposalId %d", self.voteHost, FormatAofId(self.voteAofId), self.proposalId)
 	return nil
